@@ -15,6 +15,10 @@ M = {
    "		offset = len(c.buf) - len(data)", "		offset = len(data) * partIndex")],
  "c02-replay-filter-not-consulted": [("p/p2pke/session.go",
    "		if !s.rp.ValidateCounter(uint64(nonce), MaxNonce) {\n			return false, nil, nil\n		}", "		s.rp.ValidateCounter(uint64(nonce), MaxNonce)")],
+ "c02-counter-allocated-non-atomically": [("p/p2pke/session.go",
+   "	nonce := atomic.AddUint64(&s.nonce, 1) - 1", "	nonce := atomic.LoadUint64(&s.nonce)\n	atomic.StoreUint64(&s.nonce, nonce+1)")],
+ "c02-responder-receives-before-initdone": [("p/p2pke/session.go",
+   "	return s.hsIndex >= nonceInitDone\n", "	return s.cipherIn != nil\n")],
  "c02-same-cipher-both-directions": [("p/p2pke/session.go",
    "	outCipher = cs1.Cipher()\n	inCipher = cs2.Cipher()", "	if !initiator {\n		cs1, cs2 = cs2, cs1\n	}\n	outCipher = cs1.Cipher()\n	inCipher = cs1.Cipher()")],
  "c02-expiry-only-checked-on-send": [("p/p2pke/session.go",
